@@ -9,6 +9,7 @@
 #include <string>
 #include <vector>
 #include <cstdio>
+#include <cstring>
 using osmium::memory::Buffer;
 
 static int check_members(Buffer::auto_grow mode) {
@@ -64,6 +65,23 @@ static int check_bookkeeping(unsigned seed) {
     return 0;
 }
 
+// internal growth while an object larger than the remaining capacity is being built behind committed data: the reservation must end inside the buffer
+static int check_internal_growth() {
+    for (size_t cap : {size_t(64), size_t(128), size_t(256), size_t(1024)}) for (size_t first : {size_t(8), size_t(48)}) for (size_t w : {size_t(8), size_t(56)}) for (size_t req = 8; req <= 4 * cap; req += 8) {
+        Buffer buf{cap, Buffer::auto_grow::internal};
+        if (first > cap) continue;
+        buf.reserve_space(first); buf.commit();
+        if (buf.written() + w <= buf.capacity() || true) { buf.reserve_space(w); }
+        const size_t before = buf.written() - buf.committed();
+        unsigned char* p = buf.reserve_space(req);
+        if (buf.written() > buf.capacity() || p + req > buf.data() + buf.capacity() || buf.written() - buf.committed() != before + req) {
+            std::printf("Buffer(capacity %zu, auto_grow internal): after commit of %zu bytes, %zu uncommitted bytes and reserve_space(%zu): written=%zu capacity=%zu (reservation ends outside the buffer)\nARGV: search\n",
+                        cap, first, w, req, buf.written(), buf.capacity()); return 1; }
+        std::memset(p, 0xab, req);   // ASan would see a write outside the allocation
+    }
+    return 0;
+}
+
 int main(int argc, char** argv) {
     std::string only = argc > 3 ? argv[3] : (argc > 1 ? argv[1] : ""); unsigned seed = argc > 2 ? unsigned(std::atoll(argv[2])) : 1;
     bool all = only.empty() || only == "--search" || only == "search";
@@ -71,6 +89,7 @@ int main(int argc, char** argv) {
         for (auto m : {Buffer::auto_grow::yes, Buffer::auto_grow::internal}) if (check_members(m)) return 1;
     if (all || only.find("iscussion") != std::string::npos || only.find("comment") != std::string::npos || only.find("Builder") != std::string::npos)
         for (auto m : {Buffer::auto_grow::yes, Buffer::auto_grow::internal}) if (check_discussion(m)) return 1;
+    if (all || only.find("Buffer") != std::string::npos || only.find("reserve") != std::string::npos || only.find("grow") != std::string::npos) if (check_internal_growth()) return 1;
     if (all || only.find("Buffer") != std::string::npos || only.find("padded") != std::string::npos || only.find("capacity") != std::string::npos) if (check_bookkeeping(seed)) return 1;
     std::printf("search: no disagreement found\n"); return 0;
 }
